@@ -1043,6 +1043,10 @@ class XPathEval(Comp):
             # the multi-instance rule): lyxp_atomize() sees no dependency and the value is evaluated once, as the string
             # of the first node (not modelled as coded: needs the schema)
             return ("xpath-fastpath-context-dependent-rhs", detail)
+        if impl_out == "CRASH(-6)" and " attribute " in f[6]:
+            # 4 or more (internal) metadata items: moveto_attr() retypes the set items to META in place without updating
+            # the set's hash table, the consistency assert of set_sort() fails at the next predicate
+            return ("xpath-attr-internal-meta", detail)
         if " attribute " in f[6] and ("m" in got.split(":")[-1].split(",") or got.startswith(("F:", "B:", "S:"))):
             # the only metadata in these trees is libyang's internal yang:lyds_tree (sorted (leaf-)lists)
             return ("xpath-attr-internal-meta", detail)
@@ -1223,6 +1227,8 @@ class XPathSan:
                 return ("xpath-assert-text-hash", detail)
             if " 1 attribute " in f[6]:
                 return ("xpath-attr-alldesc-crash", detail)
+            if " attribute " in f[6]:
+                return ("xpath-attr-internal-meta", detail)
             return ("xpath-alldesc-duplicate", detail)
         if "Assertion" in err and "moveto_resolve_model" in err:
             return ("xpath-assert-step-on-non-nodeset", detail)
